@@ -78,6 +78,16 @@ CHECKS = {
         "Every codec-accepted message over types 0-60 / -1..41 / -1..8 per command x message_buffer default/True/False x destination unknown/awake/sleeping x five versions is sent on a fresh real gateway; if nothing is written the destination is woken and the release is checked.",
         "One destination node and child; 'held' is checked at the very next wake only.",
         "5/C12"),
+    "C13": ("E1", "model_checking",
+        "explicit-state BFS over received-message histories with boundary payloads; in every reached state save+load through the real Persistence on an in-memory file system; plus an exhaustive grid of constructed registries",
+        "Every registry reachable in <= 4 (quick) / 5 (thorough) messages over a 19-26 event boundary alphabet is saved and re-loaded by the real code (real aiofiles on the virtual loop) and compared attribute by attribute; each saved file is also translated to the legacy pymysensors layout and must load to the same registry; 972 directly constructed nodes likewise.",
+        "In-memory file system behind aiofiles.threadpool.sync_open; legacy layout produced by a reference translator.",
+        "5/C13"),
+    "C14": ("E3", "exploration",
+        "bounded-exhaustive enumeration of file contents (all prefixes, all single-path mutations, all values of a small JSON grammar, raw bytes, injected OSErrors) through the real Persistence.load",
+        "Every byte prefix of three valid files; for every JSON path 15 replacement values + delete/rename/unknown key; every JSON value of a depth-3 grammar as document / node record / children map; undecodable bytes; OSError at open/read/close: load must succeed or raise PersistenceReadError. Missing file is created and loads back; empty file = empty registry.",
+        "In-memory file system behind aiofiles.threadpool.sync_open; locale encoding C.UTF-8.",
+        "5/C14"),
     "C19": ("E1", "model_checking",
         "differential explicit-state BFS over the product of two real gateways (old, new protocol)",
         "8 version pairs; every internal/stream type of the older table x 3 payloads in 3-7 base states, and all histories to depth 4 (quick) / 6 (thorough) of lines and send calls; outcome, writes and registry must agree per step.",
